@@ -818,7 +818,14 @@ func (r *Reader) FetchMessage(ctx context.Context) (Message, error) {
 	for {
 		r.mutex.Lock()
 
-		if !r.closed && r.version == 0 {
+		if r.closed {
+			// Messages fetched before the reader was closed may still be
+			// queued, they are not delivered anymore.
+			r.mutex.Unlock()
+			return Message{}, io.EOF
+		}
+
+		if r.version == 0 {
 			r.start(r.getTopicPartitionOffset())
 		}
 
